@@ -15,7 +15,7 @@ NOISE_ATOMS = ("NH", "NHE", "H", "C", "BV", "DR", "ST", "BAD", "PRE", "TAMPER")
 # a phase-completing frame followed, in the same chunk, by something that closes (or just traffic)
 PAIRS = tuple((a, b) for a in ("H", "C", "NH", "DRESP") for b in ("DR", "BAD", "PRE", "ST", "PR", "C", "H"))
 
-SEEDS_PLAIN = ("init", "connecting", "opened", "hello_sent", "connected", "disc_pending")
+SEEDS_PLAIN = ("init", "connecting", "opened", "hello_sent", "connected", "disc_pending", "disc_gave_up")
 SEEDS_NOISE = ("opened", "hswait", "hello_sent", "connected")
 
 
@@ -88,7 +88,7 @@ def configs(tier: str) -> list[tuple[Any, ...]]:
 def run(tier: str, seed: int) -> Result:
     res = Result("C05", "model_checking")
     total = Stats()
-    budget = 100.0 if tier == "quick" else 1500.0
+    budget = 240.0 if tier == "quick" else 2400.0
     t_end = time.monotonic() + budget
     per_cfg = []
     cfgs = configs(tier)
